@@ -236,3 +236,29 @@ def w3(x, why=0):
 
 
 WFUNCS = [w1, w2, w3]
+
+
+# arguments of mutually unorderable types at one position (int, str, None, float, tuple, bytes)
+MIXED = [1, 'b', None, 2.5, (3,), b'x']
+
+
+def _mvalue(x):
+    return ('mixed', repr(x))
+
+
+def m1(x, y=0):
+    _body('m1', x, y)
+    return _mvalue(x)
+
+
+def m2(x, y=0):
+    _body('m2', x, y)
+    return _mvalue(x)
+
+
+def m3(x, y=0):
+    _body('m3', x, y)
+    return _mvalue(x)
+
+
+MFUNCS = [m1, m2, m3]
